@@ -354,6 +354,21 @@ class Own:
                 nt.mod = m
                 if nt.module != m.index + 1 or nt.mod is not m:
                     vs.append(C.viol("note-mod-setter", {"inv": "note.mod"}, {"index": m.index, "module": nt.module}))
+            # a note that is not (yet) in any pattern, or whose pattern is not attached, can be pointed at an attached
+            # module: the number is stored and resolves once the pattern is attached
+            from rv.note import Note as _Note
+            from rv.pattern import Pattern as _Pattern
+
+            target = next((m for m in p.modules if m is not None), None)
+            if target is not None:
+                loose_pat = _Pattern(tracks=1, lines=1)
+                for label, n2 in (("free-standing", _Note()), ("in-unattached-pattern", loose_pat.data[0][0])):
+                    try:
+                        n2.mod = target
+                        if n2.module != target.index + 1:
+                            vs.append(C.viol("note-mod-setter", {"inv": "note.mod", "note": label}, {"module": n2.module, "index": target.index}))
+                    except Exception as e:
+                        vs.append(C.viol("note-mod-setter-raises", {"inv": "note.mod", "note": label, "exc": type(e).__name__}, {}))
             # a module that no project owns cannot be referenced, whatever index it happens to carry
             import rv.api as rv
             from rv.errors import ModuleOwnershipError
